@@ -234,6 +234,26 @@ def check(ctx, rep, cases):
                 prev = now
             if bad:
                 continue
+        # well-formed requests only, some of them cut in two reads: how the bytes were cut must not matter for the datastore
+        # nor for what is written (stream front-ends)
+        if kinds and all(k.split(':')[0] in ('valid-write', 'valid-other') for k in kinds) and any(k.endswith(':split') for k in kinds) \
+                and c['frontend'] in frontends.STREAM_FRONTENDS and c['framer'] != 'tls':
+            joined, i = [], 0
+            hostile = [ch for ci, ch in c['schedule'][:len(kinds)]]
+            while i < len(kinds):
+                if kinds[i].endswith(':split') and i + 1 < len(kinds):
+                    joined.append(hostile[i] + hostile[i + 1])
+                    i += 2
+                else:
+                    joined.append(hostile[i])
+                    i += 1
+            ref = serverlib.run_real(dict(c, schedule=[[0, ch] for ch in joined] + c['schedule'][len(kinds):]))
+            flat = [b for o in outs[:len(kinds)] for f in o for b in f]
+            rflat = [b for o in ref[0][:len(joined)] for f in o for b in f]
+            if ref[2] != dumps or flat != rflat:
+                rep.violation('well-formed requests cut across two reads are not served like the same requests arriving whole', case,
+                              dumps_equal=ref[2] == dumps, written_equal=flat == rflat)
+                continue
         # (c)
         if control['listen_only'] and c['frontend'] in ('twistedTcp', 'twistedUdp'):
             rep.hist['listen-only-entered (Twisted goes deaf on request: probes not required)'] += 1
